@@ -6,6 +6,8 @@ import (
 	"encoding/json"
 	"fmt"
 	"go/ast"
+	"go/parser"
+	"go/token"
 	"os"
 	"path/filepath"
 	"regexp"
@@ -223,6 +225,23 @@ func layoutClass(src []byte) string {
 var commaCommentsRE = regexp.MustCompile(`\*/[ \t]*,[ \t]*(//|/\*[^*\n]*(\*[^/\n][^*\n]*)*\n)`)
 
 func commentsAroundComma(src []byte) bool { return commaCommentsRE.Match(src) }
+
+// DuplicateImport is the input-only predicate of open finding KF-6: the file imports one path
+// twice (e.g. "unsafe" and _ "unsafe"); an import-managed restore keeps only one of the specs.
+func DuplicateImport(src []byte) bool {
+	f, err := parser.ParseFile(token.NewFileSet(), "", src, parser.ImportsOnly)
+	if err != nil {
+		return false
+	}
+	seen := map[string]bool{}
+	for _, is := range f.Imports {
+		if seen[is.Path.Value] {
+			return true
+		}
+		seen[is.Path.Value] = true
+	}
+	return false
+}
 
 func abuttingBlockComment(src []byte) bool {
 	s := string(src)
